@@ -223,3 +223,27 @@ def model_replay(p):
     except Exception as ex:
         return {"reproduced": False, "input": shown, "why": "clause not evaluable natively: %r" % (ex,)}
     return {"reproduced": not bool(ok), "input": shown, "observed": {"result": repr(result)[:200]}, "clause_value": bool(ok)}
+
+
+def function_replay(p):
+    """module-level function over plain values: call it with the model's arguments"""
+    import importlib
+    mod, fn = p["func"].split(".")
+    f = getattr(importlib.import_module("waitress." + mod), fn)
+    args = {k: val(v) for k, v in (p.get("args") or {}).items()}
+    shown = {"args": {k: repr(v)[:300] for k, v in args.items()}}
+    try:
+        result = f(**args)
+        raised = None
+    except BaseException as ex:     # noqa
+        result, raised = None, ex
+    if p["kind"] == "raises":
+        hit = raised is not None and any(k.__name__ == p["exc"].split(".")[-1] for k in type(raised).__mro__)
+        return {"reproduced": bool(hit), "input": shown, "observed": "raised %r" % (raised,) if raised else "returned %r" % (result,)}
+    if raised is not None:
+        return {"reproduced": False, "input": shown, "why": "the call raised %r natively" % (raised,)}
+    try:
+        ok = evaluate(p["clause"], None, None, args, snap(result))
+    except Exception as ex:
+        return {"reproduced": False, "input": shown, "why": "clause not evaluable natively: %r" % (ex,)}
+    return {"reproduced": not bool(ok), "input": shown, "observed": {"result": repr(result)[:200]}, "clause_value": bool(ok)}
